@@ -25,7 +25,7 @@ BODY = (
     '<a href="#x" id="l1">l</a>'
     '<form id="f"><input type="checkbox" checked="checked" id="cb"/><input type="radio" name="g" id="rd"/>'
     '<input type="text" required="required" placeholder="ph" id="tx"/>'
-    '<input type="number" min="1" max="5" value="9" id="nm"/><input type="submit" id="sb"/>'
+    '<input type="number" min="1" max="5" value="9" id="nm"/><input type="submit" id="sb"/><button type="submit" id="s2" class="c1">s</button>'
     '<button disabled="disabled" id="bt">b</button><textarea readonly="readonly" id="ta"></textarea>'
     '<select id="se"><option selected="selected" id="op">o</option></select></form>'
     '<svg xmlns="%s" xmlns:xlink="%s"><circle xlink:href="#c" id="ci"/><p id="sp">s</p></svg>'
@@ -56,6 +56,8 @@ ATOMS = [
     ':--al', 'div p, x:dir(ltr)', 'p:dir(ltr)', 'span:defined', ':not(:dir(rtl))', ':is(:defined, svg|circle)',
     # atoms that split the document at the iframe boundary (evaluation-order effects of per-document memo tables)
     ':not(iframe *)', 'iframe *', 'p:lang(en)', ':lang(de)', '#i1 *', 'form *',
+    # a memoised per-form / per-document fact asked first about an element that is NOT the one the fact is about
+    'button:default', '.c1:default', 'input[type=radio]:indeterminate', 'span:lang(en)',
 ]
 JUNK = ['', 'div >', 'p +', 'span ~', 'div > p >', ' ']
 XS = [0, 1, 3]      # X in 'X:is(A)': p, *, .c1
@@ -89,11 +91,12 @@ def _worker(args):
         atoms[i] = run(a)
         lines.append(json.dumps({'t': 'atom', 'id': 'w%d.atom%d' % (wid, i), 'ctx': ctx, 'a': i, 'set': atoms[i], 'css': a}))
     univ = run('*')
+    anyuniv = run('*|*')
     N = len(ATOMS)
     for i in rows:
         A = ATOMS[i]
         for j in range(0, N, 1):
-            if stride > 1 and (i + j) % stride and not (i >= N - 6 or j >= N - 6):
+            if stride > 1 and (i + j) % stride and i != j and not (i >= N - 10 or j >= N - 10):
                 continue
             B = ATOMS[j]
             c = (i + 2 * j + 1) % N
@@ -109,6 +112,10 @@ def _worker(args):
                   # forgiving lists: an empty slot or an alternative ending in a combinator is dropped, the others keep their meaning
                   'fg1': run(':is(%s, %s)' % (JUNK[(i + j) % len(JUNK)], B)), 'fg2': run(':where(%s, %s)' % (B, ['', ' '][(i + j) % 2])),          # (a trailing-combinator alternative in LAST position is rejected by the parser)
                   'fg3': run(':is(%s, %s, %s)' % (A, JUNK[(i + 2 * j) % len(JUNK)], B)),
+                  # the same laws under an explicit *|* subject: the default namespace is then out of the way, so that what a namespace map does
+                  # to the ALTERNATIVES of a list (nothing: no implied universal inside pseudo-class arguments) is visible
+                  'anyuniv': anyuniv, 'anyisab': run('*|*:is(%s, %s)' % (A, B)), 'anyisa': run('*|*:is(%s)' % A), 'anyisb': run('*|*:is(%s)' % B),
+                  'anynota': run('*|*:not(%s)' % A), 'anynotab': run('*|*:not(%s, %s)' % (A, B)), 'anyisba': run('*|*:is(%s, %s)' % (B, A)),
                   'A': A, 'B': B, 'doc': '%s#%d' % (parser, d), 'ns': n}
             lines.append(json.dumps(ev))
     return lines
@@ -181,7 +188,7 @@ def main(tier):
                         chk.violation('%s|%s|%s|%s|ns%d' % (law, e['A'], e['B'], e['doc'], e['ns']),
                                       'law %s fails for A=%r B=%r on %s with namespace map %d' % (law, e['A'], e['B'], e['doc'], e['ns']),
                                       {'cfg': 'laws', 'group': '%s A=%s' % (law, e['A']), 'event': e})
-        chk.count(nlaw * 10, traces=nlaw)
+        chk.count(nlaw * 19, traces=nlaw)
         chk.add_distinct(nlaw)
         e = json.loads(traces[0][len(ATOMS) + 5])
         chk.sample({k: e[k] for k in ('A', 'B', 'doc', 'ns', 'ab', 'isab', 'nota', 'xisa')})
